@@ -54,4 +54,42 @@ theorem fragRun_data (ops : List FragOp) : ∀ (t u : FragTable), t.data = u.dat
     simp only [fragRun]
     rw [this.1, ih _ _ this.2]
 
+/-! ### `fill`: the one-step set-up of a large id table is what the adds would have built -/
+
+theorem Arr.appendAll_cons {α : Type} (a : Arr α) (x : α) (xs : List α) : a.appendAll (x :: xs) = (a.append x).appendAll xs := by
+  unfold Arr.appendAll Arr.append
+  simp only [List.length_cons, capAfter]
+  split <;> simp
+
+theorem Arr.appendAll_eq_foldl {α : Type} (xs : List α) : ∀ a : Arr α, xs.foldl Arr.append a = a.appendAll xs := by
+  induction xs with
+  | nil => intro a; simp [Arr.appendAll, capAfter]
+  | cons x xs ih => intro a; rw [List.foldl_cons, ih, Arr.appendAll_cons]
+
+theorem Arr.appendAll_snoc {α : Type} (a : Arr α) (xs : List α) (x : α) : a.appendAll (xs ++ [x]) = (a.appendAll xs).append x := by
+  rw [← Arr.appendAll_eq_foldl, List.foldl_append, List.foldl_cons, List.foldl_nil, Arr.appendAll_eq_foldl]
+
+/-- the ids added one by one -/
+def idAdds (t : IdTable) (ids : List Nat) : IdTable := ids.foldl (fun t id => (idStep t (.add id)).1) t
+
+theorem idFill_data (n : Nat) : (idFill n).data = List.range n := by simp [idFill, Arr.appendAll, Arr.empty]
+
+/-- `fill n` (n ≤ 0xFFFF) leaves exactly the table that `n` calls of `sqfs_id_table_id_to_index` with the ids
+`0 … n-1` leave (contents and capacity) -/
+theorem idFill_eq_adds (n : Nat) (hn : n ≤ idLimit) : idAdds Arr.empty (List.range n) = idFill n := by
+  induction n with
+  | zero => simp [idAdds, idFill, Arr.appendAll, capAfter]
+  | succ n ih =>
+    have ih := ih (by omega)
+    unfold idAdds at ih ⊢
+    rw [List.range_succ, List.foldl_append, ih]
+    simp only [List.foldl_cons, List.foldl_nil, idStep]
+    have hno : (idFill n).data.idxOf? n = none := by
+      rw [idFill_data]; simp
+    rw [hno]
+    have hlen : ¬ (idFill n).data.length ≥ idLimit := by rw [idFill_data]; simp; omega
+    simp only [hlen, if_false]
+    unfold idFill
+    rw [List.range_succ, Arr.appendAll_snoc]
+
 end Sqfs.Obj.Kinds
